@@ -7,6 +7,7 @@
 //   clone,<newoid>,<path>                 clone_object(<path>, <newoid>)
 //   dest,<oid>                            destruct(<object oid>)
 //   reload,<oid>                          reload_object(<object oid>)
+//   later,<op> | hb,<op>                  (top level only) the op runs from a call_out / from the next heart_beat of this object
 //   via,<oid>,<op>                        evaluate((: run_op, <op> :) made by <oid>), then geteuid(that function)
 //   bind,<oid>,load,<path> | bind,<oid>,clone,<newoid>,<path>
 //                                         bind((: find_object, <path>, 1 :) / (: clone_object, <path>, <newoid> :), <oid>): the
@@ -60,6 +61,18 @@ string run_op (string op) {
   REG->pop_actor ();
   if (this_object ()) REG->snap ();   // after destruct(this_object()) the registry prints the snapshot
   return r;
+}
+
+// driver-started contexts: the op runs from a call_out / from this object's heart_beat (current_object = this object, no caller)
+string pending_hb;
+void sched_co (string op) { call_out ("run_op", 0, op); }
+void sched_hb (string op) { pending_hb = op; set_heart_beat (1); }
+void heart_beat () {
+  string op;
+  op = pending_hb;
+  pending_hb = 0;
+  set_heart_beat (0);
+  if (stringp (op)) run_op (op);
 }
 
 // bind(): run one load / clone op here, creating through the efun pointer somebody bound to this object
